@@ -411,6 +411,40 @@ def _not_ise(e: Edge) -> bool:
 # C04
 # ---------------------------------------------------------------------------
 
+def _rule_who_completes(ctx: Ctx, r: 'BatcherRoles', rule: str) -> None:
+    """Who may answer a caller: `set_result` / `set_exception` / `cancel` on a future happen in the batch task (and the helpers
+    it runs) only.  A second place that completes futures - a done-callback failing "whatever is still pending" in the retention
+    cache, a watchdog - answers callers of *other* batches with an outcome their batch function never produced."""
+    meths = [s_ for s_ in r.u.functions() if s_.enclosing_class() is r.cls and s_.enclosing_function() is None]
+    byname = {m.name: m for m in meths}
+    allowed = {r.process.name}
+    grew = True
+    while grew:
+        grew = False
+        for nm in list(allowed):
+            m = byname.get(nm)
+            if m is None:
+                continue
+            for x in ast.walk(m.node):
+                if isinstance(x, ast.Call) and self_attr(x.func) in byname and self_attr(x.func) not in allowed:
+                    allowed.add(self_attr(x.func))
+                    grew = True
+    n_sites = 0
+    bad = []
+    for m in meths:
+        for x in ast.walk(m.node):
+            if isinstance(x, ast.Call) and isinstance(x.func, ast.Attribute) and x.func.attr in ('set_result', 'set_exception'):
+                n_sites += 1
+                if m.name not in allowed:
+                    bad.append((m, x))
+    for m, x in bad:
+        ctx.violation(rule, f'{m.qualname}: {norm(x)[:70]}', f'{FILE}:{x.lineno}',
+                      'a caller future is completed outside the batch task: callers of other batches (everything still pending in the cache) '
+                      'receive an outcome their own batch never produced', construct=construct_key(m.qualname, 'completes futures', x.func.attr))
+    if not bad:
+        ctx.holds(rule, f'{n_sites} completion site(s), all in {sorted(allowed)}', f'{FILE}:{r.process.lineno}', examined=max(1, n_sites))
+
+
 def _rule_iterable_use(ctx: Ctx, r: 'BatcherRoles', rule: str) -> None:
     g = r.gproc
     ctx.rule(rule, 'the value the batch function returns is only iterated by the delivery loop, result by result (it is an AsyncIterable, nothing more is promised; nothing is held back)', 1)
@@ -461,6 +495,8 @@ def c04(ctx: Ctx) -> None:
     ctx.rule('C04-B10', 'the futures callers share live in a strong dict owned by the batcher instance (= C11-R6)', 1)
     _rule_retention_store(ctx, r, 'C04-B10')
     _rule_iterable_use(ctx, r, 'C04-B11')
+    from .common import rule_func_attr_is_param
+    rule_func_attr_is_param(ctx, 'C04-B11', r.init, 'func', 'batch function')
     where = g.loc(r.batchcall)
     if r.kvar is None or r.batchfuts is None:
         ctx.violation('C04-B1', 'results are not matched through a per-batch key->future dict', where,
@@ -780,6 +816,8 @@ def c09(ctx: Ctx) -> None:
     ctx.rule('C09-R5', 'the dispatcher keeps serving (= C04-B8): spawns, never awaits, never returns', 3)
     # R6 (= C04-B11): a result held back keeps its caller pending, and cancellable, for the rest of the batch
     _rule_iterable_use(ctx, r, 'C09-R6')
+    ctx.rule('C09-R7', 'caller futures are completed by the batch task (and the helpers it runs) only', 1)
+    _rule_who_completes(ctx, r, 'C09-R7')
     # R1
     shared = _future_vars(r)
     r1_ok = True
@@ -865,6 +903,12 @@ def c10(ctx: Ctx) -> None:
     births = [n for n in births_all if len(n.meta['value'].elts) == 1]
     # an empty display under the same name is the closed-loop result (`return []` spelled through the variable); R2 checks
     # that it is reached through the RuntimeError handler only
+    # (the batch list is the one born holding the awaited first item; a list of another name is another list - and if *that* is
+    # what the assembler hands on, the batch has been copied, filtered or reordered on the way: C10-R4 below)
+    first_births = [n for n in births if any(isinstance(x, ast.Await) for x in ast.walk(n.meta['value']))] or births
+    other_lists = [n for n in births_all if first_births and n.meta['name'] != first_births[0].meta['name']]
+    births_all = [n for n in births_all if n not in other_lists]
+    births = [n for n in births if n not in other_lists]
     empty_births = [n for n in births_all if not n.meta['value'].elts]
     if len(births) != 1 or any(len(n.meta['value'].elts) > 1 for n in births_all) or any(n.meta['name'] != births[0].meta['name'] for n in births_all):
         ctx.undecided('C10-R1', 'batch list birth', f'{FILE}:{r.assemble.lineno}', 'list is not born as a one-element display')
@@ -872,6 +916,17 @@ def c10(ctx: Ctx) -> None:
         return
     birth = births[0]
     L = birth.meta['name']
+    for rn_ in [n for n in g.nodes if n.kind == 'return' and n.ast.value is not None and not n.meta.get('inlined')]:
+        rv_ = resolve(g, rn_, rn_.ast.value)
+        okr_ = (isinstance(rv_, ast.Name) and rv_.id == L) or (isinstance(rv_, ast.List) and not rv_.elts) or isinstance(rv_, ast.List)
+        if not okr_:
+            from ..dataflow import leaves as _lv10
+            lvs_ = _lv10(g, rn_, rn_.ast.value)
+            okr_ = bool(lvs_) and all((isinstance(x, ast.Name) and x.id == L) or isinstance(x, ast.List) for x in lvs_)
+        ctx.check('C10-R4', f'{r.assemble.name} hands on the list it assembled: return {norm(rn_.ast.value)[:50]}', g.loc(rn_), okr_,
+                  f'the batch is `{L}` itself', f'what is handed on is not the assembled list `{L}` but something computed from it (a copy that drops, '
+                  'defers or reorders entries): calls leave the batch they arrived in - arrival order across batches is lost, a deferred entry waits '
+                  'for another batch window', construct=construct_key(r.assemble.qualname, 'batch list replaced'))
     maxattr = None
     def is_len_L(e):
         return isinstance(e, ast.Call) and isinstance(e.func, ast.Name) and e.func.id == 'len' and len(e.args) == 1 \
@@ -1599,6 +1654,27 @@ def _registry(ctx: Ctx, p) -> None:
                       construct=construct_key(wrapper.qualname, 'no registry'))
         return
     reg = stores[0].ast.value.id
+    # a look-up decided by the *truth value* of what was found (`b = registry.get(loop); if not b:`) is a presence test only as long
+    # as a batcher is always true: a `__len__` / `__bool__` on the class makes an idle batcher look missing, and it is replaced
+    truthy_lk = []
+    for b_ in lookups:
+        if b_.kind == 'branch':
+            t_ = resolve(g, b_, b_.meta['test'])
+            while isinstance(t_, ast.UnaryOp) and isinstance(t_.op, ast.Not):
+                t_ = t_.operand
+            if isinstance(t_, ast.Call):
+                truthy_lk.append(b_)
+    if truthy_lk:
+        try:
+            rb_ = BatcherRoles(ctx)
+            falsy_hooks = [m_.name for m_ in rb_.u.functions() if m_.enclosing_class() is rb_.cls and m_.name in ('__len__', '__bool__')]
+        except AnalysisError:
+            falsy_hooks = []
+        ctx.check('C15-R3', f'registry look-up by truth value ({norm(truthy_lk[0].meta["test"])}); the batcher class defines {falsy_hooks or "neither __len__ nor __bool__"}',
+                  g.loc(truthy_lk[0]), not falsy_hooks, 'a batcher object is always true',
+                  'the look-up treats a batcher that is false (empty queue: `__len__` returns 0) as missing and replaces the live batcher of this loop: '
+                  'its queue, semaphore and retention state are split over several batchers - limits and batching no longer hold',
+                  construct=construct_key(wrapper.qualname, 'truthiness look-up of a sized batcher'))
     kind = None
     for n in own_nodes(abb.node):
         if isinstance(n, (ast.Assign, ast.AnnAssign)) and n.value is not None:
@@ -1662,8 +1738,32 @@ def _registry(ctx: Ctx, p) -> None:
             ds_ = _rdefs(g).reaching(n, fe.id)
             if ds_ is None or any(d_ is None for d_ in ds_):
                 return False
-        if isinstance(fe, ast.Name) and fe.id in bvars:
-            return True
+            # ... and so is a value copied from such a variable (`batcher = current`): every definition that reaches the call
+            # must itself be a read of the registry, the store into it, or a copy of a local that is
+            nl_ = {x_ for y_ in own_nodes(wrapper.node) if isinstance(y_, (ast.Nonlocal, ast.Global)) for x_ in y_.names}
+
+            def def_ok(d_) -> bool:
+                v_ = d_.meta.get('value')
+                st_ = d_.meta.get('stmt')
+                if isinstance(st_, ast.Assign) and any(isinstance(t_, ast.Subscript) and isinstance(t_.value, ast.Name) and t_.value.id == reg for t_ in st_.targets):
+                    return True
+                if v_ is None:
+                    return False
+                rv_ = resolve(g, d_, v_)
+                if isinstance(rv_, (ast.Subscript, ast.Call)) and any(isinstance(y_, ast.Name) and y_.id == reg for y_ in ast.walk(rv_)):
+                    return True
+                if isinstance(v_, ast.Name) and v_.id != fe.id and v_.id in bvars and v_.id not in nl_:
+                    return True
+                # a fresh batcher that this activation goes on to store under the loop (`b = make(); registry[loop] = b`)
+                for s_ in stores:
+                    sv_ = s_.meta.get('value')
+                    if isinstance(sv_, ast.Name) and sv_.id == fe.id and d_ in (_rdefs(g).reaching(s_, fe.id) or []):
+                        return True
+                return isinstance(rv_, ast.Call) and any(norm(rv_) == norm(s_.meta['value']) for s_ in stores if s_.meta.get('value') is not None)
+            if fe.id in bvars and all(def_ok(d_) for d_ in ds_):
+                return True
+            if fe.id in bvars and fe.id not in nl_ and not all(def_ok(d_) for d_ in ds_):
+                return False
         lfs = _leaves(g, n, fe)
         def one(x) -> bool:
             if isinstance(x, ast.Name) and x.id in bvars:
